@@ -13,7 +13,7 @@ from ..refmodels import ref_next_imf, guard_margin, guard_margin_single
 from ..monitors import thread_probe
 
 MANIFEST = {
-    'text': 'Held on every comparison executed: for seeded order-one signals x all stop rules / step sizes / interpolants / pad widths the real get_next_imf, sift and mask_sift are run on x and on the transformed input; results must be bit-identical for c = +-2^k (|k|<=8; mask_sift c>0, ratio amplitudes) and agree to 1e-10 relative for arbitrary real c and for time reversal, unless a stop/extremum decision of the original run lies within a measured guard band (1e-6), in which case the comparison is excluded and counted. Sampling, not proof.',
+    'text': 'Held on every comparison executed: for seeded order-one signals x all stop rules / step sizes / interpolants / pad widths the real get_next_imf, sift and mask_sift are run on x and on the transformed input; results must be bit-identical for c = +-2^k (|k|<=8; mask_sift c>0, ratio amplitudes) and agree to 1e-10 relative for arbitrary real c and for time reversal, unless a stop/extremum decision of the original run lies within a measured guard band (1e-6), in which case the comparison is excluded and counted. Sampling, not proof. Schedules: the same deterministic calls made from 4-5 threads of one interpreter at once (thread switch every 1-10 microseconds) must reproduce the results obtained alone. A quarter of the shards run in a session that turns Deprecation/Future/UserWarnings into errors.',
     'note': 'Trusted: exactness of IEEE scaling by powers of two and of negation. sift_thresh is scaled with the signal. Guard-band exclusions are reported per interpolation method; PCHIP full-sift comparisons beyond the first IMF are mostly excluded (flat envelope edges make later extrema rounding-level).',
     'technique': 'metamorphic runtime oracle (transform input, compare outputs of the real functions), exact + guarded-tolerance',
 }
